@@ -395,7 +395,7 @@ func buildGraphFromAST(node *sitter.Node, sourceCode []byte, graph *CodeGraph, c
 			addExpr.Op = expressionNode.Op
 			addExpr.BinaryExpr = expressionNode
 			addExpressionNode := &Node{
-				ID:               GenerateSha256("add_expression" + node.Content(sourceCode)),
+				ID:               GenerateSha256("add_expression" + file + "\x00" + node.Content(sourceCode)),
 				Type:             "add_expression",
 				Name:             node.Content(sourceCode),
 				CodeSnippet:      node.Content(sourceCode),
@@ -412,7 +412,7 @@ func buildGraphFromAST(node *sitter.Node, sourceCode []byte, graph *CodeGraph, c
 			subExpr.Op = expressionNode.Op
 			subExpr.BinaryExpr = expressionNode
 			subExpressionNode := &Node{
-				ID:               GenerateSha256("sub_expression" + node.Content(sourceCode)),
+				ID:               GenerateSha256("sub_expression" + file + "\x00" + node.Content(sourceCode)),
 				Type:             "sub_expression",
 				Name:             node.Content(sourceCode),
 				CodeSnippet:      node.Content(sourceCode),
@@ -429,7 +429,7 @@ func buildGraphFromAST(node *sitter.Node, sourceCode []byte, graph *CodeGraph, c
 			mulExpr.Op = expressionNode.Op
 			mulExpr.BinaryExpr = expressionNode
 			mulExpressionNode := &Node{
-				ID:               GenerateSha256("mul_expression" + node.Content(sourceCode)),
+				ID:               GenerateSha256("mul_expression" + file + "\x00" + node.Content(sourceCode)),
 				Type:             "mul_expression",
 				Name:             node.Content(sourceCode),
 				CodeSnippet:      node.Content(sourceCode),
@@ -446,7 +446,7 @@ func buildGraphFromAST(node *sitter.Node, sourceCode []byte, graph *CodeGraph, c
 			divExpr.Op = expressionNode.Op
 			divExpr.BinaryExpr = expressionNode
 			divExpressionNode := &Node{
-				ID:               GenerateSha256("div_expression" + node.Content(sourceCode)),
+				ID:               GenerateSha256("div_expression" + file + "\x00" + node.Content(sourceCode)),
 				Type:             "div_expression",
 				Name:             node.Content(sourceCode),
 				CodeSnippet:      node.Content(sourceCode),
@@ -463,7 +463,7 @@ func buildGraphFromAST(node *sitter.Node, sourceCode []byte, graph *CodeGraph, c
 			compExpr.Op = expressionNode.Op
 			compExpr.BinaryExpr = expressionNode
 			compExpressionNode := &Node{
-				ID:               GenerateSha256("comp_expression" + node.Content(sourceCode)),
+				ID:               GenerateSha256("comp_expression" + file + "\x00" + node.Content(sourceCode)),
 				Type:             "comp_expression",
 				Name:             node.Content(sourceCode),
 				CodeSnippet:      node.Content(sourceCode),
@@ -480,7 +480,7 @@ func buildGraphFromAST(node *sitter.Node, sourceCode []byte, graph *CodeGraph, c
 			RemExpr.Op = expressionNode.Op
 			RemExpr.BinaryExpr = expressionNode
 			RemExpressionNode := &Node{
-				ID:               GenerateSha256("rem_expression" + node.Content(sourceCode)),
+				ID:               GenerateSha256("rem_expression" + file + "\x00" + node.Content(sourceCode)),
 				Type:             "rem_expression",
 				Name:             node.Content(sourceCode),
 				CodeSnippet:      node.Content(sourceCode),
@@ -497,7 +497,7 @@ func buildGraphFromAST(node *sitter.Node, sourceCode []byte, graph *CodeGraph, c
 			RightShiftExpr.Op = expressionNode.Op
 			RightShiftExpr.BinaryExpr = expressionNode
 			RightShiftExpressionNode := &Node{
-				ID:               GenerateSha256("right_shift_expression" + node.Content(sourceCode)),
+				ID:               GenerateSha256("right_shift_expression" + file + "\x00" + node.Content(sourceCode)),
 				Type:             "right_shift_expression",
 				Name:             node.Content(sourceCode),
 				CodeSnippet:      node.Content(sourceCode),
@@ -514,7 +514,7 @@ func buildGraphFromAST(node *sitter.Node, sourceCode []byte, graph *CodeGraph, c
 			LeftShiftExpr.Op = expressionNode.Op
 			LeftShiftExpr.BinaryExpr = expressionNode
 			LeftShiftExpressionNode := &Node{
-				ID:               GenerateSha256("left_shift_expression" + node.Content(sourceCode)),
+				ID:               GenerateSha256("left_shift_expression" + file + "\x00" + node.Content(sourceCode)),
 				Type:             "left_shift_expression",
 				Name:             node.Content(sourceCode),
 				CodeSnippet:      node.Content(sourceCode),
@@ -531,7 +531,7 @@ func buildGraphFromAST(node *sitter.Node, sourceCode []byte, graph *CodeGraph, c
 			NEExpr.Op = expressionNode.Op
 			NEExpr.BinaryExpr = expressionNode
 			NEExpressionNode := &Node{
-				ID:               GenerateSha256("ne_expression" + node.Content(sourceCode)),
+				ID:               GenerateSha256("ne_expression" + file + "\x00" + node.Content(sourceCode)),
 				Type:             "ne_expression",
 				Name:             node.Content(sourceCode),
 				CodeSnippet:      node.Content(sourceCode),
@@ -548,7 +548,7 @@ func buildGraphFromAST(node *sitter.Node, sourceCode []byte, graph *CodeGraph, c
 			EQExpr.Op = expressionNode.Op
 			EQExpr.BinaryExpr = expressionNode
 			EQExpressionNode := &Node{
-				ID:               GenerateSha256("eq_expression" + node.Content(sourceCode)),
+				ID:               GenerateSha256("eq_expression" + file + "\x00" + node.Content(sourceCode)),
 				Type:             "eq_expression",
 				Name:             node.Content(sourceCode),
 				CodeSnippet:      node.Content(sourceCode),
@@ -565,7 +565,7 @@ func buildGraphFromAST(node *sitter.Node, sourceCode []byte, graph *CodeGraph, c
 			BitwiseAndExpr.Op = expressionNode.Op
 			BitwiseAndExpr.BinaryExpr = expressionNode
 			BitwiseAndExpressionNode := &Node{
-				ID:               GenerateSha256("bitwise_and_expression" + node.Content(sourceCode)),
+				ID:               GenerateSha256("bitwise_and_expression" + file + "\x00" + node.Content(sourceCode)),
 				Type:             "bitwise_and_expression",
 				Name:             node.Content(sourceCode),
 				CodeSnippet:      node.Content(sourceCode),
@@ -582,7 +582,7 @@ func buildGraphFromAST(node *sitter.Node, sourceCode []byte, graph *CodeGraph, c
 			AndExpr.Op = expressionNode.Op
 			AndExpr.BinaryExpr = expressionNode
 			AndExpressionNode := &Node{
-				ID:               GenerateSha256("and_expression" + node.Content(sourceCode)),
+				ID:               GenerateSha256("and_expression" + file + "\x00" + node.Content(sourceCode)),
 				Type:             "and_expression",
 				Name:             node.Content(sourceCode),
 				CodeSnippet:      node.Content(sourceCode),
@@ -599,7 +599,7 @@ func buildGraphFromAST(node *sitter.Node, sourceCode []byte, graph *CodeGraph, c
 			OrExpr.Op = expressionNode.Op
 			OrExpr.BinaryExpr = expressionNode
 			OrExpressionNode := &Node{
-				ID:               GenerateSha256("or_expression" + node.Content(sourceCode)),
+				ID:               GenerateSha256("or_expression" + file + "\x00" + node.Content(sourceCode)),
 				Type:             "or_expression",
 				Name:             node.Content(sourceCode),
 				CodeSnippet:      node.Content(sourceCode),
@@ -616,7 +616,7 @@ func buildGraphFromAST(node *sitter.Node, sourceCode []byte, graph *CodeGraph, c
 			BitwiseOrExpr.Op = expressionNode.Op
 			BitwiseOrExpr.BinaryExpr = expressionNode
 			BitwiseOrExpressionNode := &Node{
-				ID:               GenerateSha256("bitwise_or_expression" + node.Content(sourceCode)),
+				ID:               GenerateSha256("bitwise_or_expression" + file + "\x00" + node.Content(sourceCode)),
 				Type:             "bitwise_or_expression",
 				Name:             node.Content(sourceCode),
 				CodeSnippet:      node.Content(sourceCode),
@@ -633,7 +633,7 @@ func buildGraphFromAST(node *sitter.Node, sourceCode []byte, graph *CodeGraph, c
 			BitwiseRightShiftExpr.Op = expressionNode.Op
 			BitwiseRightShiftExpr.BinaryExpr = expressionNode
 			BitwiseRightShiftExpressionNode := &Node{
-				ID:               GenerateSha256("bitwise_right_shift_expression" + node.Content(sourceCode)),
+				ID:               GenerateSha256("bitwise_right_shift_expression" + file + "\x00" + node.Content(sourceCode)),
 				Type:             "bitwise_right_shift_expression",
 				Name:             node.Content(sourceCode),
 				CodeSnippet:      node.Content(sourceCode),
@@ -650,7 +650,7 @@ func buildGraphFromAST(node *sitter.Node, sourceCode []byte, graph *CodeGraph, c
 			BitwiseXorExpr.Op = expressionNode.Op
 			BitwiseXorExpr.BinaryExpr = expressionNode
 			BitwiseXorExpressionNode := &Node{
-				ID:               GenerateSha256("bitwise_xor_expression" + node.Content(sourceCode)),
+				ID:               GenerateSha256("bitwise_xor_expression" + file + "\x00" + node.Content(sourceCode)),
 				Type:             "bitwise_xor_expression",
 				Name:             node.Content(sourceCode),
 				CodeSnippet:      node.Content(sourceCode),
@@ -663,7 +663,7 @@ func buildGraphFromAST(node *sitter.Node, sourceCode []byte, graph *CodeGraph, c
 		}
 
 		invokedNode := &Node{
-			ID:               GenerateSha256("binary_expression" + node.Content(sourceCode)),
+			ID:               GenerateSha256("binary_expression" + file + "\x00" + node.Content(sourceCode)),
 			Type:             "binary_expression",
 			Name:             node.Content(sourceCode),
 			CodeSnippet:      node.Content(sourceCode),
